@@ -206,7 +206,7 @@ func (g *G) keeperState() (index, using []space, cfgd bool) {
 		}
 		parts := strings.Split(sp.SID, "-")
 		bl, _ := strconv.Atoi(parts[1])
-		s := space{ord: g.ordOfSID(sp.SID), bl: bl, dir: g.dirIndex(sp.RootDir), plotted: sp.Field == engine.Ready}
+		s := space{ord: g.ordOfSID(sp.SID), bl: bl, dir: g.dirIndex(sp.RootDir), plotted: sp.Field == engine.Ready || sp.Field == engine.Mining}
 		index = append(index, s)
 		if sp.Using {
 			using = append(using, s)
